@@ -21,7 +21,7 @@ inductive RErr
   | wrongType | version | limitDepth | limitObjects | limitArray | limitId | limitRefs
   | count | dupKey | dupRecordType | noRecordType | recordTypeNotAllowed
   | utf8 | chunkOverflow | idEmpty | idChars | markerDup | refType | forwardUnresolved
-  | tooManyEnds | apiMisuse | arrayType | byteCount | runtime | unknownAct
+  | tooManyEnds | apiMisuse | arrayType | byteCount | runtime | unknownAct | comment | time | mediaType
 deriving DecidableEq, Repr, Inhabited
 
 /-- what `Context.NotifyKey` stores (after normalisation) -/
@@ -136,6 +136,9 @@ def validateUtf8 (d : Bytes) : M Unit := if Utf8.valid d then .ok () else .error
 def validateFullAny (cfg : Cfg) (t : ArrT) (count : Nat) (data : Bytes) : M Unit :=
   match t with
   | .string | .rid | .customText => do validateLength cfg data.length; validateUtf8 data
+  | .remoteRef => do
+    if data.length ≠ elemsToBytes t.elemBits count % 2 ^ 64 then throw .byteCount
+    validateLength cfg data.length; validateUtf8 data
   | _ => do
     if data.length ≠ elemsToBytes t.elemBits count % 2 ^ 64 then throw .byteCount
     validateLength cfg data.length
@@ -143,7 +146,7 @@ def validateFullAny (cfg : Cfg) (t : ArrT) (count : Nat) (data : Bytes) : M Unit
 /-- `ValidateFullArrayStringlike` -/
 def validateFullStringlike (cfg : Cfg) (t : ArrT) (data : Bytes) : M Unit :=
   match t with
-  | .string | .rid | .customText => do validateLength cfg data.length; validateUtf8 data
+  | .string | .rid | .remoteRef | .customText => do validateLength cfg data.length; validateUtf8 data
   | _ => validateLength cfg data.length
 
 def beginArray (s : RState) (t : ArrT) (r : Rule) (dt : DT) (max : Nat) (v : Validator) : RState :=
@@ -156,7 +159,7 @@ def beginArrayAny (cfg : Cfg) (s : RState) (t : ArrT) : M RState :=
   | none => .error .runtime
   | some dt =>
     match t with
-    | .string | .rid | .customText => .ok (beginArray s t .string dt cfg.maxArrayBytes .string)
+    | .string | .rid | .remoteRef | .customText => .ok (beginArray s t .string dt cfg.maxArrayBytes .string)
     | _ => .ok (beginArray s t .array dt cfg.maxArrayBytes .nothing)
 
 def lookupForward (l : List (Bytes × DT)) (id : Bytes) : Option DT := (l.find? (·.1 == id)).map (·.2)
@@ -443,6 +446,70 @@ def intKey (i : Int) : NormKey := .int i
 
 def uidKey (b : Bytes) : NormKey := .uid ((b ++ List.replicate 16 0).take 16)
 
+/-- scan of a multiline comment: nesting depth after the text, whether it went negative, and
+    whether the text ends with the close of a nested comment (non-overlapping left-to-right
+    matching of the two delimiters, as `Context.ValidateComment` does) -/
+def commentScan : Nat → List Nat → Nat → Option (Nat × Bool)
+  | 0, _, depth => some (depth, false)
+  | _ + 1, [], depth => some (depth, false)
+  | f + 1, 47 :: 42 :: rest, depth => commentScan f rest (depth + 1)
+  | f + 1, 42 :: 47 :: rest, depth =>
+    if depth = 0 then none
+    else match rest with
+      | [] => some (depth - 1, true)
+      | _ => commentScan f rest (depth - 1)
+  | f + 1, _ :: rest, depth => commentScan f rest depth
+
+/-- `Context.ValidateComment` -/
+def commentOK (multi : Bool) (s : Bytes) : Bool :=
+  Utf8.valid s &&
+  (if multi then
+    match commentScan (s.length + 1) (s.map (·.toNat)) 0 with
+    | none => false
+    | some (depth, endsNested) => depth == 0 && (s.getLast?.map (·.toNat) != some 47 || endsNested)
+  else !(s.any fun b => b.toNat == 10 || b.toNat == 13))
+
+/-- `Context.ValidateMediaType`: letter, media-type characters, one slash, a non-empty subtype -/
+def mediaTypeChar (b : Nat) : Bool :=
+  (97 ≤ b && b ≤ 122) || (65 ≤ b && b ≤ 90) || (48 ≤ b && b ≤ 57) ||
+  [33, 35, 36, 37, 38, 39, 42, 43, 46, 94, 95, 96, 124, 126, 123, 125, 45].contains b
+
+def mediaTypeOK (mt : Bytes) : Bool :=
+  let l := mt.map (·.toNat)
+  match l.idxOf? 47 with
+  | none => false
+  | some slash =>
+    slash > 0 && slash < l.length - 1 &&
+    (match l.head? with | some c => (97 ≤ c && c ≤ 122) || (65 ≤ c && c ≤ 90) | none => false) &&
+    (l.zipIdx.all fun p => p.2 == slash || mediaTypeChar p.1)
+
+def dayMax : Nat → Nat
+  | 1 => 31 | 2 => 29 | 3 => 31 | 4 => 30 | 5 => 31 | 6 => 30 | 7 => 31 | 8 => 31 | 9 => 30 | 10 => 31 | 11 => 30 | 12 => 31
+  | _ => 0
+
+def areaLocOK (name : Bytes) : Bool :=
+  name.length ≥ 1 && name.length ≤ 127 &&
+  (name.map (·.toNat)).zipIdx.all fun p =>
+    (65 ≤ p.1 && p.1 ≤ 90) ||
+    (p.2 > 0 && ((97 ≤ p.1 && p.1 ≤ 122) || (48 ≤ p.1 && p.1 ≤ 57) || [95, 45, 46, 47, 43].contains p.1))
+
+def dateOK (t : TimeV) : Bool :=
+  t.year != 0 && 1 ≤ t.month && t.month ≤ 12 && 1 ≤ t.day && t.day ≤ dayMax t.month
+
+def zoneOK : Zone → Bool
+  | .area name => areaLocOK name
+  | .latlong lat long => -9000 ≤ lat && lat ≤ 9000 && -18000 ≤ long && long ≤ 18000
+  | .offset m => -1439 ≤ m && m ≤ 1439
+  | _ => true
+
+def clockOK (t : TimeV) : Bool :=
+  t.hour ≤ 23 && t.minute ≤ 59 && t.second ≤ 60 && t.nanos ≤ 999999999 && zoneOK t.zone
+
+/-- `Context.ValidateTime` = compact_time `Time.Validate` + a spellable area/location -/
+def timeOK (t : TimeV) : Bool :=
+  (if t.kind == 0 || t.kind == 2 then dateOK t else true) &&
+  (if t.kind == 1 || t.kind == 2 then clockOK t else true)
+
 structure Env where
   tbl : RuleTable
   cfg : Cfg := {}
@@ -475,7 +542,9 @@ def step (env : Env) (s : RState) (e : Ev) : M (RState × List Ev) :=
   | .endDoc => do pure (← call tbl cfg s .onEndDocument {}, [e])
   | .version v => do pure (← call tbl cfg s .onVersion { version := v }, [e])
   | .padding => do pure (← call tbl cfg s .onPadding {}, [e])
-  | .comment _ _ => do pure (← call tbl cfg s .onComment {}, [e])
+  | .comment multi txt => do
+    if !commentOK multi txt then throw RErr.comment
+    pure (← call tbl cfg s .onComment {}, [e])
   | .null => null
   | .bool b => keyable DT.bool (.bool b) e
   | .true_ => keyable DT.bool (.bool true) e
@@ -497,7 +566,7 @@ def step (env : Env) (s : RState) (e : Ev) : M (RState × List Ev) :=
   | .bigDecimal (some _) => nonKeyable DT.float e
   | .nan sig => nanEv sig
   | .uid b => keyable DT.uid (uidKey b) e
-  | .time t => keyable DT.time (.time t) e
+  | .time t => if timeOK t then keyable DT.time (.time t) e else .error .time
   | .array t c d => do
     apiArray t
     let s1 ← nno s
@@ -506,7 +575,8 @@ def step (env : Env) (s : RState) (e : Ev) : M (RState × List Ev) :=
     apiArray t
     let s1 ← nno s
     pure (← call tbl cfg s1 .onStringlikeArray { arrT := t, data := d }, [e])
-  | .media _ d => do
+  | .media mt d => do
+    if !mediaTypeOK mt then throw RErr.mediaType
     let s1 ← nno s
     pure (← call tbl cfg s1 .onArray { arrT := .media, count := d.length, data := d }, [e])
   | .customBinary _ d => do
@@ -519,7 +589,8 @@ def step (env : Env) (s : RState) (e : Ev) : M (RState × List Ev) :=
     apiArray t
     let s1 ← nno s
     pure (← call tbl cfg s1 .onArrayBegin { arrT := t }, [e])
-  | .mediaBegin _ => do
+  | .mediaBegin mt => do
+    if !mediaTypeOK mt then throw RErr.mediaType
     let s1 ← nno s
     pure (← call tbl cfg s1 .onArrayBegin { arrT := .media }, [e])
   | .customBegin t _ => do
